@@ -592,6 +592,43 @@ func (e *termEngine) compute(v ssa.Value) *Term {
 // the arguments (loads and calls in it appear as they would if the expression
 // were written at the call site); the call disappears from terms and facts.
 // Instruction-level analyses (effects, bounds) still see the call itself.
+// identityArg: v is a call of an in-package accessor that returns its
+// (pointer) parameter seen through type changes; returns that argument.
+func (P *Prog) identityArg(v ssa.Value) (ssa.Value, bool) {
+	c, ok := v.(*ssa.Call)
+	if !ok {
+		return nil, false
+	}
+	h := c.Call.StaticCallee()
+	if h == nil || c.Call.IsInvoke() || !P.inPkg(h) {
+		return nil, false
+	}
+	if _, isPtr := h.Signature.Results().At(0).Type().Underlying().(*types.Pointer); h.Signature.Results().Len() != 1 || !isPtr {
+		return nil, false
+	}
+	ret := P.trivialReturn(h)
+	if ret == nil {
+		return nil, false
+	}
+	r := ret.Results[0]
+	for {
+		ct, ok := r.(*ssa.ChangeType)
+		if !ok {
+			break
+		}
+		r = ct.X
+	}
+	prm, ok := r.(*ssa.Parameter)
+	if !ok {
+		return nil, false
+	}
+	i := paramIndex(prm)
+	if i < 0 || i >= len(c.Call.Args) {
+		return nil, false
+	}
+	return c.Call.Args[i], true
+}
+
 // trivialReturn: h is one straight-line block computing one value of a basic
 // type without stores or allocation; returns its Return.
 func (P *Prog) trivialReturn(h *ssa.Function) *ssa.Return {
@@ -599,6 +636,34 @@ func (P *Prog) trivialReturn(h *ssa.Function) *ssa.Return {
 		return nil
 	}
 	if _, basic := h.Signature.Results().At(0).Type().Underlying().(*types.Basic); !basic {
+		// a pointer-typed result is inlined only when it is a parameter seen
+		// through type changes (an accessor like `func (m *U) asT() *T`)
+		if _, isPtr := h.Signature.Results().At(0).Type().Underlying().(*types.Pointer); !isPtr {
+			return nil
+		}
+		for _, in := range h.Blocks[0].Instrs {
+			switch x := in.(type) {
+			case *ssa.ChangeType, *ssa.DebugRef:
+			case *ssa.Return:
+				if len(x.Results) != 1 {
+					return nil
+				}
+				v := x.Results[0]
+				for {
+					ct, ok := v.(*ssa.ChangeType)
+					if !ok {
+						break
+					}
+					v = ct.X
+				}
+				if _, isParam := v.(*ssa.Parameter); !isParam {
+					return nil
+				}
+				return x
+			default:
+				return nil
+			}
+		}
 		return nil
 	}
 	var ret *ssa.Return
@@ -873,6 +938,21 @@ func normCond(c *Term) *Term {
 	a, b := c.Args[0], c.Args[1]
 	switch c.S {
 	case "==", "!=":
+		// the major type of a CBOR head byte, written with a mask:
+		// x & 0xe0 == k<<5 is x >> 5 == k for a byte x (one spelling)
+		for i := 0; i < 2; i++ {
+			k, m := c.Args[i], c.Args[1-i]
+			kn, okK := smallConst(k)
+			if !okK || kn < 0 || kn > 224 || kn&31 != 0 || m.Op != "binop" || m.S != "&" || len(m.Args) != 2 {
+				continue
+			}
+			for j := 0; j < 2; j++ {
+				if mask, ok := smallConst(m.Args[j]); ok && mask == 224 && m.Args[1-j].Op == "load" && m.Args[1-j].Args[0].Op == "index" {
+					a = T("const", strconv.FormatInt(kn>>5, 10))
+					b = &Term{Op: "binop", S: ">>", Args: []*Term{m.Args[1-j], T("const", "5")}}
+				}
+			}
+		}
 		if a.String() > b.String() {
 			a, b = b, a
 		}
@@ -913,6 +993,11 @@ func (e *termEngine) addrPath(addr ssa.Value) (root ssa.Value, path []string) {
 		case *ssa.ChangeType:
 			addr = a.X
 			continue
+		case *ssa.Call:
+			if x, ok := e.P.identityArg(a); ok {
+				addr = x
+				continue
+			}
 		}
 		return addr, path
 	}
@@ -1146,6 +1231,11 @@ func (e *termEngine) pointerRoot(v ssa.Value) (ssa.Value, []string) {
 		case *ssa.ChangeInterface:
 			v = x.X
 			continue
+		case *ssa.Call:
+			if a, ok := e.P.identityArg(x); ok {
+				v = a
+				continue
+			}
 		case *ssa.Slice:
 			// slice of an array pointer / slice: same backing memory
 			r, p := e.addrPath(x.X)
